@@ -36,14 +36,14 @@ CHECKS = {
     "C05": dict(
         category="exploration",
         technique="deterministic simulation of sessions with first-class continuations: seeded histories in which later top-level forms re-enter stored continuations, under collection schedules and slicing, checked against a reference CEK machine with first-class continuations",
-        text="Sessions composed of 17 continuation templates (escape, re-entry from later forms, operand position with effects on both sides, tail capture, nested, inside map/for-each, mutation since capture, re-entry from loops, captures above 256 stack slots, re-entry from the capturing activation, two captures in one activation ...) with the continuation stored in a global, vector, pair, closure or list and re-entered 0-3 times; the value, failure and output of every form must equal the reference machine's. Half of the runs add forced collections (continuations are kept alive by the marker only), a third are sliced. Sampling.",
+        text="Sessions composed of 21 continuation templates (escape, re-entry from later forms, operand position with effects on both sides, tail capture, nested, inside map/for-each, mutation since capture, re-entry from loops, captures above 256 stack slots, re-entry from the capturing activation, two captures in one activation, locals assigned since capture, aggregates handed to k ...) with the continuation stored in a global, vector, pair, closure or list and re-entered 0-3 times; the value, failure and output of every form must equal the reference machine's. Half of the runs add forced collections (continuations are kept alive by the marker only), a third are sliced. Sampling.",
         note="Trusted: the reference machine (persistent frame list as continuation).",
         design="§5 C05",
     ),
     "C07": dict(
         category="fault_enumeration",
         technique="deterministic simulation with fault injection: a failure of each kind injected at every expression position of a chosen form in turn, bursts of up to 1000 consecutive failures; reference machine, never-failed twin VM and stack/heap monitors as oracles",
-        text="For each generated session the form with most expression positions gets a failure injected at each position in turn (seven kinds rotating: unbound variable, type, arity, user error, non-procedure, compile-time syntax, read error). The reference machine predicts every later form from the completed effects; a fresh twin VM in which the failing forms are escape variants must give the same later values, failures and stack-trace frames; the stack pointer must be at rest after every form; bursts k in {1,10,100,1000} x depth {0,3,50} x kind must not grow stack capacity or post-collection heap use beyond 10 failures and must leave stack traces equal to a fresh VM's.",
+        text="For each generated session the form with most expression positions gets a failure injected at each position in turn (eight kinds rotating: unbound variable, type, arity, user error, non-procedure, compile-time syntax, read error, failure during macro expansion). The reference machine predicts every later form from the completed effects; a fresh twin VM in which the failing forms are escape variants must give the same later values, failures and stack-trace frames; the stack pointer must be at rest after every form; bursts k in {1,10,100,1000} x depth {0,3,50} x kind must not grow stack capacity or post-collection heap use beyond 10 failures and must leave stack traces equal to a fresh VM's.",
         note="Positions are enumerated per chosen form (capped at 24/64 per form, seeded subset beyond); programs are sampled. Trusted: reference machine; the escape-variant construction of the twin.",
         design="§5 C07",
     ),
@@ -64,7 +64,7 @@ CHECKS = {
     "C12": dict(
         category="exploration",
         technique="deterministic simulation: heap audit 'no unreachable cell stays allocated' after every scheduled collection, plus resource monitors over garbage loops (n vs 10n) under the production collection policy with randomised knobs",
-        text="After every collection of the C03 schedule families the auditor checks that each allocated cell is reachable from the roots; garbage loops of 13 allocation kinds x 3 live-set sizes x 5 loop drivers (named let, continuation back edge, mutual tail calls, apply, ...), split into forms and slices with a randomised initial heap chunk, must hold no more heap capacity, stack capacity, cells in use, interned symbols or global slots after 10n iterations than after n. Sampling of programs and schedules.",
+        text="After every collection of the C03 schedule families the auditor checks that each allocated cell is reachable from the roots; garbage loops of 13 allocation kinds x 3 live-set sizes x 6 loop drivers (named let, continuation back edge, mutual tail calls, apply, one-armed conditional, ...), split into forms and slices with a randomised initial heap chunk, must hold no more heap capacity, stack capacity, cells in use, interned symbols or global slots after 10n iterations than after n. Sampling of programs and schedules.",
         note="Trusted: auditor traversal (conservative about jump offsets for I2); 'stops growing' is decided as not-larger at 10n than at n with n past warm-up (quick: 3e3/1e4, thorough: 1e4/1e5).",
         design="§5 C12",
     ),
@@ -79,7 +79,7 @@ CHECKS = {
         category="exploration",
         technique="deterministic simulation of operation histories over mutable multi-byte strings: every operation checked against a Vec<char> reference with object identity, unique-marker mutations through aliases, collections and slices composed",
         text="Seeded operation sequences (4-10 operations, each third one a unique-marker string-set! through an alias) over five mutable strings mixing 1-4 byte characters and two containers holding some of them; all listed string and character procedures with start/end/index arguments from {-1,0,1,len-1,len,len+1,2^63}, fill/set characters of every width, integer->char across the surrogate range and beyond 0x10FFFF; after every operation the result and all pool contents must equal the Vec<char> model; an abort of the host (allocation failure) is caught by crash sentinels and reported with its replay.",
-        note="Trusted: Rust's Unicode tables for case mapping (both sides use them); the -ci palette avoids characters where lower-casing and case folding differ.",
+        note="Trusted: Rust's Unicode tables for upper/lower-casing and the character predicates (both sides use them); case FOLDING in the reference comes from a table generated from CPython's unicodedata (independent of marwood's code), and the palette includes the characters whose folding is not their lower-case form (final sigma, long s, micro sign, sharp s, dotless i ...).",
         design="§5 C15",
     ),
     "C18": dict(
